@@ -3,13 +3,16 @@ import PetgraphModel.GraphProto
 import PetgraphModel.Oracle.Reach
 import PetgraphModel.Model.Acyclic
 import PetgraphModel.Spec.Dag
+import PetgraphModel.Driver.C14Checks
+import PetgraphModel.Model.AcyclicGraph
+import PetgraphModel.Model.AcyclicStable
 /-
 C14 driver.  Lines of a case (see harness/src/c14.rs):
 
   case k kind=g|s ix=u8|u32
   new | withcap n e                          => ok
   graph …                                    => ok      inner graph, concrete ids, `lab=` idx:label
-  from tfg|tf                                => ok | err cycle <n>     (uses the preceding graph line)
+  from tfg|tf [fn= fe= nl= el=]              => ok | err cycle <n>     (uses the preceding graph line; StableGraph: its free lists)
   add_node <label>                           => <idx>
   try_add_edge|try_update_edge a b w         => ok <e> | err selfloop | err cycle <n> | err invalid | panic
   add_edge a b w                             => some <e> | none | panic
@@ -22,6 +25,24 @@ C14 driver.  Lines of a case (see harness/src/c14.rs):
 The mirror model (`Acy`) runs on the view of the last graph line; the spec-level judges (`Dag`) run on
 the abstract graph of that view.  A mutating call sets `pend`: what the NEXT graph line has to be
 (spec level) and which model update still needs the graph after the call.
+
+Run-time checks of the theorems' hypotheses (`Driver/C14Checks.lean`; `Theorems/C14.lean`, section
+"run-time checks of the hypotheses" proves that they imply the hypotheses):
+  * every graph line: `viewOkB` (`ViewOk`, `Closed`, index and fuel bounds incl. `TopoFuelOk`) and the counts;
+  * every graph line that follows a call: the call's contract `Call.InnerOk` / `EdgesOk` (`contractWhy`),
+    after the stronger labelled-graph comparison `judgeGraph`;
+  * every state of the mirror model that is judged in: `safeB` (`Safe`), after each graph line, an
+    accepted `from` and the `valid` dump (the only requests that change the model state).
+A failing check is `SPECFAIL side condition <name> does not hold: …`.
+
+Replay of the instantiated machines (`Model/AcyclicGraph.lean`, `Model/AcyclicStable.lean`: the C01 /
+C02 storage model + the bookkeeping, the subjects of the unconditional theorems `C14_digraph_*`,
+`C14_stable_*`): for every `Acyclic<DiGraph>` case (built by `new`, `with_capacity` or from a graph —
+the `Graph` is rebuilt from the graph line) and every `Acyclic<StableDiGraph>` case (a `StableGraph` with
+vacancies is rebuilt from the graph line and the free lists the harness observes on a clone), the driver steps the machine with the same calls and compares, after every call, the
+view the storage model presents (`gView` / `sView`: nodes, `node_bound`, edge list, both adjacency
+tables in iteration order) with the graph line of the real crate, and its order map with the mirror
+model's.  A difference is a `MODELDIFF`.
 -/
 namespace PetgraphModel.C14
 open PetgraphModel PetgraphModel.Acy PetgraphModel.Dag PetgraphModel.Oracle
@@ -42,6 +63,7 @@ structure DState where
   have_ : Bool := false              -- an `Acyclic` object exists
   lost : Bool := false               -- the mirror model lost track (after a MODELDIFF on a state-changing answer)
   v : View := default
+  vok : Bool := false                -- `v` passed `viewOkB` (it is the view of a checked graph line)
   lab : List (Nat × Nat) := []
   gline : String := ""
   m : AState := {}
@@ -52,17 +74,10 @@ structure DState where
   lastValid : String := ""
   implOrder : List Nat := []
   implPos : List (Nat × Nat) := []
-
-/-- the graph line is self-consistent: directed, nodes listed once, edges between live nodes, and
-the neighbour iterations describe exactly the edge list (hypotheses `ViewOk` / `Closed` of the theorems) -/
-def viewOkB (v : View) : Bool :=
-  v.g.directed && nodupB v.g.nodes &&
-  (v.g.edges.all fun e => v.g.nodes.contains e.src && v.g.nodes.contains e.tgt) &&
-  (v.out.all fun r => v.g.nodes.contains r.1) && (v.inn.all fun r => v.g.nodes.contains r.1) &&
-  (v.g.nodes.all fun a => a < v.nb) &&
-  ((v.g.nodes.map fun a => 1 + (v.succ a).length).sum + 1 ≤ dfsFuel v) &&
-  ((v.g.nodes.map fun a => 1 + (v.pred a).length).sum + 1 ≤ dfsFuel v) &&
-  v.g.nodes.all fun a => sameSet (v.succ a) (v.g.succ a) && sameSet (v.pred a) (v.g.pred a)
+  endv : Nat := 4294967295           -- `Ix::max()` of the case
+  ag : Option AcyG.AG := none        -- replay of `Acyclic<DiGraph>` over the C01 storage model
+  as : Option AcyS.AS := none        -- replay of `Acyclic<StableDiGraph>` over the C02 storage model
+  rnote : String := ""               -- why the replay was abandoned (reported at the next graph line)
 
 def labelOf (lab : List (Nat × Nat)) (i : Nat) : Nat := (lab.lookup i).getD (1000000 + i)
 
@@ -146,25 +161,84 @@ def judgeGraph (d : DState) (v' : View) (lab' : List (Nat × Nat)) (line : Strin
     if LG.same (old.removeNode (labelOf d.lab n)) new then none
     else some s!"after remove_node({n}) the inner graph is not the old graph minus that node and its edges"
 
+/-- G-A: the inner-graph contracts `Call.InnerOk` / `EdgesOk` of the call that produced the graph line
+`v'` (`Theorems/C14.lean`: `C14_innerOk_check`, `C14_edgesOk_check`); `some name` = the one that fails -/
+def contractWhy (d : DState) (v' : View) : Option String :=
+  match d.pend with
+  | .addNode _ i =>
+    if !(innerAddNodeB d.v i v') then some "InnerOk(add_node) does not hold: the live indices after add_node are not the old ones plus the new index"
+    else if !(edgesSubB d.v v') then some "EdgesOk(add_node) does not hold: an adjacency appeared" else none
+  | .addEdge a b _ | .updEdge a b _ =>
+    if !(innerEdgeB d.v a b v') then some "InnerOk(edge insertion) does not hold: the node list changed"
+    else if !(edgesEdgeB d.v a b v') then some s!"EdgesOk(edge insertion) does not hold: an adjacency other than {a}->{b} appeared" else none
+  | .remEdge _ =>
+    if !(innerRemoveEdgeB d.v v') then some "InnerOk(remove_edge) does not hold: the node list changed"
+    else if !(edgesSubB d.v v') then some "EdgesOk(remove_edge) does not hold: an adjacency appeared" else none
+  | .remNode n =>
+    if !(innerRemoveNodeB d.v n v') then some s!"InnerOk(remove_node {n}) does not hold: RemoveContract — neither 'the index vanishes' nor 'the last node moves into it'"
+    else if !(edgesRemoveNodeB d.v n v') then some s!"EdgesOk(remove_node {n}) does not hold: an adjacency appeared (up to the renaming of the moved node)" else none
+  | _ => none
+
+/-- G-A: the state of the mirror model satisfies `Safe` on the current (checked) view
+(`C14_safe_check`); `some why` otherwise -/
+def safeWhyOpt (v : View) (m : AState) : Option String :=
+  if safeB v m then none else some s!"SPECFAIL side condition Safe does not hold: {safeWhy v m}"
+
+/-- step the replayed storage machine(s) with the call the real object just executed -/
+def replay (d : DState) (op : AcyG.AOp) : DState :=
+  match d.ag, d.as with
+  | some x, _ =>
+    match x.step op with
+    | .ok x' => { d with ag := some x' }
+    | .error e => { d with ag := none, rnote := s!"the C01-based machine panicked: {e}" }
+  | none, some x =>
+    match x.step op with
+    | .ok x' => { d with as := some x' }
+    | .error e => { d with as := none, rnote := s!"the C02-based machine panicked: {e}" }
+  | none, none => d
+
+/-- after a call: does the replayed machine present the reported graph and hold the mirror model's order map? -/
+def replayDiff (d : DState) (v' : View) (m' : AState) : Option String :=
+  if d.rnote != "" then some d.rnote else
+  match d.ag, d.as with
+  | some x, _ =>
+    if !(AcyG.sameView (AcyG.gView x.g) v') then some "the view of the C01 storage model (gView) is not the reported inner graph"
+    else if x.a.om != m'.om then some "the order map of the replayed Acyclic<DiGraph> machine differs from the mirror model's"
+    else none
+  | none, some x =>
+    if !(AcyS.sameView (AcyS.sView x.g) v') then some "the view of the C02 storage model (sView) is not the reported inner graph"
+    else if x.a.om != m'.om then some "the order map of the replayed Acyclic<StableDiGraph> machine differs from the mirror model's"
+    else none
+  | none, none => none
+
 def isAccept (impl : String) : Bool := impl.startsWith "ok" || impl.startsWith "some"
 
 def step (d : DState) (req : List String) (impl : String) : DState × String :=
   match req with
-  | "case" :: k :: rest => ({ stable := rest.contains "kind=s" }, s!"case {k}")
-  | ["new"] => ({ d with have_ := true, lost := false, m := {}, pend := .empty, mustSame := false }, cmpExact "ok" impl)
+  | "case" :: k :: rest =>
+    ({ stable := rest.contains "kind=s", endv := if rest.contains "ix=u8" then 255 else 4294967295 }, s!"case {k}")
+  | ["new"] =>
+    ({ d with have_ := true, lost := false, m := {}, pend := .empty, mustSame := false, rnote := "",
+              ag := if d.stable then none else some (AcyG.AG.new d.endv 0),
+              as := if d.stable then some (AcyS.AS.new d.endv false true 0) else none }, cmpExact "ok" impl)
   | ["withcap", n, _] =>
-    ({ d with have_ := true, lost := false, m := withCapacity (n.toNat?.getD 0), pend := .empty, mustSame := false }, cmpExact "ok" impl)
+    ({ d with have_ := true, lost := false, m := withCapacity (n.toNat?.getD 0), pend := .empty, mustSame := false, rnote := "",
+              ag := if d.stable then none else some (AcyG.AG.new d.endv (n.toNat?.getD 0)),
+              as := if d.stable then some (AcyS.AS.new d.endv false true (n.toNat?.getD 0)) else none }, cmpExact "ok" impl)
   | "graph" :: _ =>
     let line := String.intercalate " " req
     match parseView req with
     | none => (d, "SPECFAIL unparsable graph line")
     | some v' =>
       let lab' := parsePairs ((field? req "lab").getD "-")
-      if !(viewOkB v') then (d, "SPECFAIL neighbour iteration of the inner graph does not describe its edge list") else
+      if !(viewOkB v') then (d, s!"SPECFAIL side condition {viewWhy v'} does not hold: the graph line of the inner graph is not self-consistent") else
       if (field? req "nc").bind (·.toNat?) != some v'.g.nodes.length || (field? req "ec").bind (·.toNat?) != some v'.g.edges.length then
-        (d, "SPECFAIL node_count / edge_count disagree with the node and edge iterators") else
+        (d, "SPECFAIL side condition counts does not hold: node_count / edge_count disagree with the node and edge iterators") else
       match judgeGraph d v' lab' line with
-      | some why => ({ d with v := v', lab := lab', gline := line, pend := .idle }, s!"SPECFAIL {why}")
+      | some why => ({ d with v := v', vok := true, lab := lab', gline := line, pend := .idle }, s!"SPECFAIL {why}")
+      | none =>
+      match contractWhy d v' with
+      | some why => ({ d with v := v', vok := true, lab := lab', gline := line, pend := .idle }, s!"SPECFAIL side condition {why}")
       | none =>
         -- complete the model update that needs the graph after the call
         let (m', lost, note) := match d.pend with
@@ -177,9 +251,20 @@ def step (d : DState) (req : List String) (impl : String) : DState × String :=
             | .ok (m', _) => (m', d.lost, "")
             | .error e => (d.m, true, s!"MODELDIFF model=[panic {e}] impl=[remove_node returned]")
           | _ => (d.m, d.lost, "")
-        ({ d with v := v', lab := lab', gline := line, m := m', lost := lost, pend := .idle }, if note == "" then "ok" else note)
-  | ["from", _via] =>
+        let d' := { d with v := v', vok := true, lab := lab', gline := line, m := m', lost := lost, pend := .idle }
+        if note != "" then (d', note) else
+        -- G-A: every state the model is judged in satisfies `Safe` (hypothesis of the step / history / no-panic theorems)
+        match (if d.have_ && !lost then safeWhyOpt v' m' else none) with
+        | some why => (d', why)
+        | none =>
+          -- replay of the instantiated machines (C01 / C02 storage model + bookkeeping)
+          match (if d.have_ && !lost then replayDiff d v' m' else none) with
+          | some why => ({ d' with ag := none, as := none, rnote := "" }, s!"MODELDIFF model=[{why}] impl=[graph line]")
+          | none => (d', "ok")
+  | "from" :: _via :: _ =>
     let v := d.v
+    -- G-A: the hypotheses of `C14_try_from_graph_exact` (well-formed view, `TopoFuelOk`) were checked on the graph line
+    if !d.vok then (d, "SPECFAIL side condition graph-line does not hold: `from` without a checked graph line") else
     let specCyc := cycleEdge v.g
     let implOk := impl == "ok"
     let spec : Option String :=
@@ -193,7 +278,32 @@ def step (d : DState) (req : List String) (impl : String) : DState × String :=
     | .ok (.inl x) =>
       ({ d with have_ := implOk, lost := implOk, pend := if implOk then .same else .idle, mustSame := false }, verdict spec s!"err cycle {x}" impl)
     | .ok (.inr m) =>
-      ({ d with have_ := implOk, lost := !implOk, m := m, pend := if implOk then .same else .idle, mustSame := false }, verdict spec "ok" impl)
+      -- replay: rebuild the `Graph` / `StableGraph` behind the graph line (for a `StableGraph` with the
+      -- free lists the harness observed: `fn=`, `fe=`, `nl=`, `el=`) and wrap it
+      let g0 := AcyG.ofView v (labelOf d.lab) d.endv
+      let (ag, rnote) : Option AcyG.AG × String :=
+        if d.stable || !implOk then (none, "") else
+        if !(AcyG.sameView (AcyG.gView g0) v) then (none, "the C01 storage state could not be rebuilt from the graph line") else
+        match AcyG.AG.tryFromGraph g0 with
+        | .ok (.inr x) => (some x, "")
+        | _ => (none, "the C01-based machine did not accept the graph")
+      let freeN := parseNats ((field? req "fn").getD "-")
+      let freeE := parseNats ((field? req "fe").getD "-")
+      let nl := ((field? req "nl").bind (·.toNat?)).getD 0
+      let el := ((field? req "el").bind (·.toNat?)).getD 0
+      let s0 := AcyS.ofView v (labelOf d.lab) d.endv freeN freeE nl el
+      let (as, rnote) : Option AcyS.AS × String :=
+        if !d.stable || !implOk then (none, rnote) else
+        if !(AcyS.freeListsFit v freeN freeE nl el) then (none, "the reported free lists are not the vacant slots") else
+        if !(AcyS.sameView (AcyS.sView s0) v) then (none, "the C02 storage state could not be rebuilt from the graph line") else
+        match AcyS.AS.tryFromGraph s0 with
+        | .ok (.inr x) => (some x, "")
+        | _ => (none, "the C02-based machine did not accept the graph")
+      let d' := { d with have_ := implOk, lost := !implOk, m := m, pend := if implOk then .same else .idle, mustSame := false,
+                         ag := ag, as := as, rnote := rnote }
+      match (if implOk then safeWhyOpt v m else none) with
+      | some why => (d', why)
+      | none => (d', verdict spec "ok" impl)
   | _ =>
   if !d.have_ then (d, s!"SPECFAIL bad request {req} (no object)") else
   if d.lost then
@@ -209,7 +319,7 @@ def step (d : DState) (req : List String) (impl : String) : DState × String :=
     | some i =>
       let spec := if live d.v i then some s!"add_node returned index {i} which is already live" else none
       let model := if d.stable then toString i else toString d.v.nb
-      ({ d with pend := .addNode l i, mustSame := false }, verdict spec model impl)
+      (replay { d with pend := .addNode l i, mustSame := false } (.addNode l), verdict spec model impl)
   | [op, a, b, w] =>
     let a := a.toNat?.getD 0
     let b := b.toNat?.getD 0
@@ -249,7 +359,8 @@ def step (d : DState) (req : List String) (impl : String) : DState × String :=
           else none
     if both then
       let pend := if acc then (if isUpd then Pend.updEdge a b w else Pend.addEdge a b w) else Pend.same
-      ({ d with m := m', lost := modelAcc != acc, pend := pend, mustSame := !acc }, verdict spec modelS impl)
+      (replay { d with m := m', lost := modelAcc != acc, pend := pend, mustSame := !acc }
+        (if isUpd then .tryUpdateEdge a b w.toNat else .tryAddEdge a b w.toNat), verdict spec modelS impl)
     else
       ({ d with pend := .same, mustSame := true }, verdict spec modelS impl)
   | ["remove_edge", e] =>
@@ -257,14 +368,16 @@ def step (d : DState) (req : List String) (impl : String) : DState × String :=
     match d.v.edge? e with
     | some ed =>
       let want := s!"some {ed.w}"
-      ({ d with pend := if impl == want then .remEdge e else .idle, mustSame := false }, verdict (expectS want impl) want impl)
-    | none => ({ d with pend := .same, mustSame := true }, verdict (expectS "none" impl) "none" impl)
+      (replay { d with pend := if impl == want then .remEdge e else .idle, mustSame := false } (.removeEdge e),
+        verdict (expectS want impl) want impl)
+    | none => (replay { d with pend := .same, mustSame := true } (.removeEdge e), verdict (expectS "none" impl) "none" impl)
   | ["remove_node", n] =>
     let n := n.toNat?.getD 0
     if live d.v n then
       let want := s!"some {labelOf d.lab n}"
-      ({ d with pend := if impl == want then .remNode n else .idle, mustSame := false }, verdict (expectS want impl) want impl)
-    else ({ d with pend := .same, mustSame := true }, verdict (expectS "none" impl) "none" impl)
+      (replay { d with pend := if impl == want then .remNode n else .idle, mustSame := false } (.removeNode n),
+        verdict (expectS want impl) want impl)
+    else (replay { d with pend := .same, mustSame := true } (.removeNode n), verdict (expectS "none" impl) "none" impl)
   -- ------------------------------------------------------------------ the dump
   | ["order"] =>
     let o := parseNats impl
@@ -310,7 +423,9 @@ def step (d : DState) (req : List String) (impl : String) : DState × String :=
         match judgeValid d.v.g l with
         | some why => some why
         | none => if d.mustSame && impl != d.lastValid then some "is_valid_edge answers changed although the call was rejected / a no-op" else none
-    ({ d with m := m', lastValid := impl, mustSame := false }, verdict spec (showValid mv) impl)
+    match safeWhyOpt d.v m' with
+    | some why => ({ d with m := m', lastValid := impl, mustSame := false }, why)
+    | none => ({ d with m := m', lastValid := impl, mustSame := false }, verdict spec (showValid mv) impl)
   | _ => (d, s!"SPECFAIL bad request {req}")
 
 end PetgraphModel.C14
